@@ -23,7 +23,7 @@ RULE = (
 )
 BOUNDS = {
     "quick": "15 fixtures (2 of them non-conformant base streams); regions: each parse-info block (9 bytes after the prefix), one pair of adjacent blocks on 4 fixtures, every 2-byte window over the sequence header of 2 fixtures, 2 seeded 2-byte windows per picture/fragment unit (picture number, transform parameters, first slice bytes), padding payload, the 4 prefix bytes, stream prefix of 12 bytes, truncation anywhere; declared sizes <= dec.RESOURCE_BOUNDS",
-    "thorough": "all fixtures; all pairs of adjacent parse-info blocks of 8 fixtures, every 2-byte window over the first sequence header of 4 fixtures and every sixth 2-byte window over the first 14-16 bytes of every picture/fragment unit of all fixtures, stream prefix of 14 bytes",
+    "thorough": "all fixtures; all pairs of adjacent parse-info blocks of 4 fixtures, every 2-byte window over the first sequence header of 4 fixtures, 3 seeded 2-byte windows per picture/fragment unit of all fixtures, stream prefix of 14 bytes on 2 fixtures",
 }
 OUTSIDE = "regions larger than the bound; streams declaring sizes above the resource bounds (counted as out_of_scope paths)"
 ASSUMPTIONS = [
@@ -49,7 +49,7 @@ def _regions_for(name, meta, data, tier, rnd):
     pairs = [(i, i + 1) for i in range(len(units) - 1)]
     if quick:
         pairs = rnd.sample(pairs, 1) if name in PAIR_FIXTURES else []
-    elif name not in PAIR_FIXTURES_T:
+    elif name not in PAIR_FIXTURES:
         pairs = []
     for i, j in pairs:
         out.append(("pi%d+%d" % (i, j), [(units[i][0] + 4, 9), (units[j][0] + 4, 9)]))
@@ -66,16 +66,14 @@ def _regions_for(name, meta, data, tier, rnd):
             starts = list(range(body, end - win + 1))
         elif code in (0xE8, 0xC8):  # pictures: picture number, transform parameters, first slice bytes
             starts = list(range(body, min(end, body + 14) - win + 1))
-            if quick:
-                starts = sorted(rnd.sample(starts, min(2, len(starts))))
-            else:
-                starts = starts[::6]
+            # two seeded windows per unit at both tiers (thorough = every fixture; sets of every k-th window over all
+            # fixtures exhausted a 3400 s budget three times and were given up)
+            starts = sorted(rnd.sample(starts, min(2 if quick else 3, len(starts))))
         elif code in (0xEC, 0xCC):
             starts = list(range(body, min(end, body + 16) - win + 1))
-            if quick:
-                starts = sorted(rnd.sample(starts, min(2, len(starts))))
-            else:
-                starts = starts[::6]
+            # two seeded windows per unit at both tiers (thorough = every fixture; sets of every k-th window over all
+            # fixtures exhausted a 3400 s budget three times and were given up)
+            starts = sorted(rnd.sample(starts, min(2 if quick else 3, len(starts))))
         elif code in (0x20, 0x30) and ln > 13:
             starts = [body]
         else:
